@@ -52,6 +52,10 @@ var c06ReaderKinds = func() []string {
 	// buffering readers over a source that hands over a few bytes per Read:
 	// the buffer then ends inside frames, headers and length fields
 	for _, v := range c06Chunked {
+		if v.Zero > 0 {
+			s = append(s, fmt.Sprintf("%s over %d-byte segments each preceded by %d idle reads", v.K, v.Chunk, v.Zero))
+			continue
+		}
 		s = append(s, fmt.Sprintf("%s over %d-byte segments", v.K, v.Chunk))
 	}
 	return s
@@ -60,7 +64,9 @@ var c06ReaderKinds = func() []string {
 var c06Chunked = []struct {
 	K     env.Kind
 	Chunk int
-}{{env.KBufio4096, 1}, {env.KBufio4096, 3}, {env.KBufio4096, 7}, {env.KRich, 2}, {env.KBufio16, 5}, {env.KBufioPrefetched, 4}}
+	Zero  int // idle (0,nil) reads before every segment
+}{{env.KBufio4096, 1, 0}, {env.KBufio4096, 3, 0}, {env.KBufio4096, 7, 0}, {env.KRich, 2, 0}, {env.KBufio16, 5, 0}, {env.KBufioPrefetched, 4, 0},
+	{env.KRaw, 3, 1}, {env.KRaw, 1, 2}, {env.KLimited, 64, 1}}
 
 type c06Stream struct {
 	r    io.Reader
@@ -71,7 +77,7 @@ func c06Open(kind int, stream []byte) c06Stream {
 	under := &env.Reader{Data: stream}
 	if n := int(env.NKinds); kind >= n {
 		v := c06Chunked[kind-n]
-		under.Pat = &env.Pattern{Chunk: v.Chunk}
+		under.Pat = &env.Pattern{Chunk: v.Chunk, ZeroBefore: v.Zero}
 		kind = int(v.K)
 	}
 	r := env.Wrap(env.Kind(kind), under)
@@ -230,7 +236,9 @@ func c06Frames() []CFrame {
 
 // c06Costly: frames that are only combined with the sub-alphabet (and never
 // with each other), to keep the stream sizes in hand.
-func c06Costly(f CFrame) bool { return len(f.B) > 60000 || strings.HasPrefix(f.Name, "publish.payload=") || strings.HasPrefix(f.Name, "publish.remlen=") }
+func c06Costly(f CFrame) bool {
+	return len(f.B) > 60000 || strings.HasPrefix(f.Name, "publish.payload=") || strings.HasPrefix(f.Name, "publish.remlen=")
+}
 
 func runC06(x *core.Ctx) {
 	frames := c06Frames()
@@ -250,6 +258,9 @@ func runC06(x *core.Ctx) {
 		}
 		for tail := range c06Tails {
 			for kind := range c06ReaderKinds {
+				if stratum == "len3" && x.Thorough() && !(kind == 0 || kind == int(env.KBufio4096) || kind == int(env.KBytesBuffer) || kind == int(env.NKinds)+1) {
+					continue // thorough: all triples over the whole alphabet, through four reader configurations
+				}
 				x.Eval(stratum + "." + c06ReaderKinds[kind])
 				x.R.Transitions += int64(len(seq))
 				x.R.Traces++
